@@ -4,6 +4,7 @@ import Octo.Model.SsConfig
 import Octo.Model.Vmess
 import Octo.Model.Trojan
 import Octo.Model.Socks5
+import Octo.Spec.Wire
 import Octo.Crypto.Real
 import Std.Data.HashMap
 /-!
@@ -253,6 +254,88 @@ def step (st : St) (toks : List String) : St × String :=
     match unhexOrDash h with
     | some b => (st, showRes (fun (p : Addr × Bytes) => s!"{showAddr p.1} rest={hexOrDash p.2}") (VmessAddr.read utf8Ok b))
     | none => (st, "bad-op")
+  | "craft.ss2022" :: rest =>
+    -- Spec-built Shadowsocks-2022 stream; password = base64 keys joined by ':' (iPSKs…, PSK)
+    match (kv rest "cipher").bind Spec.cipherOf, kv rest "password", (kv rest "salt").bind unhexOrDash,
+        (kv rest "fixed").bind unhexOrDash, (kv rest "var").bind unhexOrDash with
+    | some c, some pw, some salt, some fixed, some var_ =>
+      let psks := (pw.splitOn ":").filterMap Crypto.Base64.decode
+      let chunks := match kv rest "chunks" with
+        | some cs => if cs == "-" then [] else (cs.splitOn ";").filterMap unhexOrDash
+        | none => []
+      (st, hexOrDash (Spec.stream2022 C c psks ((kv rest "eih") == some "1") salt fixed var_ chunks))
+    | _, _, _, _, _ => (st, "bad-op")
+  | "craft.sslegacy" :: rest =>
+    match (kv rest "cipher").bind Spec.cipherOf, kv rest "password", (kv rest "salt").bind unhexOrDash, kv rest "chunks" with
+    | some c, some pw, some salt, some cs =>
+      let chunks := if cs == "-" then [] else (cs.splitOn ";").filterMap unhexOrDash
+      (st, hexOrDash (Spec.legacyStream C c pw.toUTF8.toList salt chunks))
+    | _, _, _, _ => (st, "bad-op")
+  | "craft.vm.instr" :: rest =>
+    match (kv rest "iv").bind unhexOrDash, (kv rest "key").bind unhexOrDash, (kv rest "v").bind String.toNat?,
+        (kv rest "opt").bind String.toNat?, (kv rest "padsec").bind String.toNat?, (kv rest "cmd").bind String.toNat?,
+        (kv rest "pta").bind unhexOrDash, (kv rest "padding").bind unhexOrDash with
+    | some iv, some key, some v, some opt, some ps, some cmd, some pta, some pad =>
+      (st, hexOrDash (Spec.vmessInstruction C iv key v opt ps cmd pta pad))
+    | _, _, _, _, _, _, _, _ => (st, "bad-op")
+  | "craft.vm.req" :: rest =>
+    match (kv rest "uuid").bind parseUuid, (kv rest "time").bind String.toNat?, (kv rest "rand").bind unhexOrDash,
+        (kv rest "nonce").bind unhexOrDash, (kv rest "header").bind unhexOrDash with
+    | some u, some t, some r, some n, some h =>
+      let ck := Spec.vmessCmdKey C u
+      (st, hexOrDash (Spec.vmessSealedHeader C ck (Spec.vmessAuthId C ck t r) n h))
+    | _, _, _, _, _ => (st, "bad-op")
+  | "craft.vm.chunk" :: rest =>
+    match (kv rest "datakey").bind unhexOrDash, (kv rest "dataiv").bind unhexOrDash, (kv rest "lenkey").bind unhexOrDash,
+        (kv rest "leniv").bind unhexOrDash, (kv rest "count").bind String.toNat?, (kv rest "payload").bind unhexOrDash with
+    | some dk, some di, some lk, some li, some n, some p => (st, hexOrDash (Spec.vmessChunkAuthLen C dk di lk li n p))
+    | _, _, _, _, _, _ => (st, "bad-op")
+  | "craft.vm.resp" :: rest =>
+    match (kv rest "reqkey").bind unhexOrDash, (kv rest "reqiv").bind unhexOrDash, (kv rest "header").bind unhexOrDash with
+    | some rk, some ri, some h => (st, hexOrDash (Spec.vmessResponseHeader C ((C.sha256 rk).take 16) ((C.sha256 ri).take 16) h))
+    | _, _, _ => (st, "bad-op")
+  | "craft.tj.req" :: rest =>
+    match kv rest "password", (kv rest "cmd").bind String.toNat?, (kv rest "target").bind unhexOrDash, (kv rest "payload").bind unhexOrDash with
+    | some pw, some cmd, some t, some p => (st, hexOrDash (Spec.trojanRequest C pw.toUTF8.toList cmd t p))
+    | _, _, _, _ => (st, "bad-op")
+  | "spec.parse.sslegacy" :: rest =>
+    match (kv rest "cipher").bind Spec.cipherOf, kv rest "password", (kv rest "wire").bind unhexOrDash with
+    | some c, some pw, some w =>
+      match Spec.parseLegacy C c pw.toUTF8.toList w with
+      | some (salt, cs) => (st, s!"ok salt={hexOrDash salt} chunks={String.intercalate ";" (cs.map hexOrDash)}")
+      | none => (st, "reject")
+    | _, _, _ => (st, "bad-op")
+  | "spec.parse.ss2022" :: rest =>
+    match (kv rest "cipher").bind Spec.cipherOf, kv rest "password", (kv rest "wire").bind unhexOrDash,
+        (kv rest "eih").bind String.toNat?, (kv rest "fixedlen").bind String.toNat? with
+    | some c, some pw, some w, some ne, some fl =>
+      let psk := ((pw.splitOn ":").filterMap Crypto.Base64.decode).getLast?.getD []
+      match Spec.parse2022 C c psk ne fl w with
+      | some (salt, eih, f, v, cs) =>
+        (st, s!"ok salt={hexOrDash salt} eih={hexOrDash eih} fixed={hexOrDash f} var={hexOrDash v} chunks={String.intercalate ";" (cs.map hexOrDash)}")
+      | none => (st, "reject")
+    | _, _, _, _, _ => (st, "bad-op")
+  | "spec.parse.vm" :: rest =>
+    match (kv rest "uuid").bind parseUuid, (kv rest "wire").bind unhexOrDash, kv rest "cipher" with
+    | some u, some w, some ci =>
+      let ck := Spec.vmessCmdKey C u
+      match Spec.parseVmessRequest C ck w with
+      | some (aid, h, body) =>
+        let iv := (h.drop 1).take 16
+        let key := (h.drop 17).take 16
+        let chacha := ci == "chacha20-poly1305"
+        let alg : Alg := if chacha then .chacha20 else .aes128gcm
+        let ck2 (k : Bytes) : Bytes := if chacha then (C.md5 k ++ C.md5 (C.md5 k)) else k
+        let lenKey := ck2 ((Spec.vmessKdf C key [Spec.ascii "auth_len"]).take 16)
+        match Spec.parseVmessBody C alg (ck2 key) iv lenKey iv (body.length + 1) 0 body with
+        | some cs => (st, s!"ok authid={hexOrDash aid} instr={hexOrDash h} chunks={String.intercalate ";" (cs.map hexOrDash)}")
+        | none => (st, s!"ok authid={hexOrDash aid} instr={hexOrDash h} chunks=reject")
+      | none => (st, "reject")
+    | _, _, _ => (st, "bad-op")
+  | ["craft.sha256", h] =>
+    match unhexOrDash h with
+    | some b => (st, hexOrDash (C.sha256 b))
+    | none => (st, "bad-op")
   | ["s5.dec", kind, h] =>
     match unhexOrDash h with
     | none => (st, "bad-op")
@@ -485,6 +568,7 @@ partial def loop (h : IO.FS.Stream) (out : IO.FS.Stream) (st : St) : IO Unit := 
       else toks
     let (st', r) := step st toks
     out.putStrLn r
+    out.flush
     loop h out st'
 
 end Driver
